@@ -208,3 +208,13 @@ Theorem C05_code_tie_block_routines :
    ("oracle"%string, ([], [])); ("rns"%string, ([], [])); ("storage"%string, (["BeginBlocker"%string], []))].
 Proof. reflexivity. Qed.
 Print Assumptions C05_code_tie_block_routines.
+
+(* ... and those BeginBlockers call exactly the two routines the model is about (generated from x/<module>/abci.go):
+   keeper.RunRewardBlock (translated in Gen/GoWindows.v, with manageProof and the gauge / reward units) and
+   keeper.BlockMint (Gen/GoMint.v) *)
+Theorem C05_code_tie_blockers_call_the_modelled_routines :
+  blocker_calls =
+  [("filetree"%string, []); ("jklmint"%string, ["BeginBlocker:k.BlockMint"%string]); ("notifications"%string, []);
+   ("oracle"%string, []); ("rns"%string, []); ("storage"%string, ["BeginBlocker:k.RunRewardBlock"%string])].
+Proof. reflexivity. Qed.
+Print Assumptions C05_code_tie_blockers_call_the_modelled_routines.
